@@ -413,6 +413,35 @@ def get_protocol(config, line, rest=b"", tls=False):
         line.decode(errors="surrogateescape"), server, h, h.rfile, h.wfile, config)
 
 
+def detect(config, data, tls=False):
+    """The protocol chosen for a connection on which the client sends `data`, decided the way the server decides it:
+    through GopherRequestHandler.handle() (which reads the first line itself); the chosen protocol's own handle() is not
+    run.  Returns (protocol object or None, first line as the multiplexer received it)."""
+    import pygopherd.server as pserver
+    init_mimetypes_once(config)
+    logger.log = lambda m: None
+    server = ServerStub(config)
+    req = (MockSSLRequest if tls else MockRequest)(io.BytesIO(data), MemWFile())
+    h = Handler(req, CLIENT, server)
+    seen = {}
+    orig = pserver.ProtocolMultiplexer.getProtocol
+
+    class _Stop:
+        def handle(self):
+            pass
+
+    def wrapper(request, *a, **k):
+        seen["line"] = request
+        seen["proto"] = orig(request, *a, **k)
+        return _Stop()
+    pserver.ProtocolMultiplexer.getProtocol = wrapper
+    try:
+        GopherRequestHandler.handle(h)
+    finally:
+        pserver.ProtocolMultiplexer.getProtocol = orig
+    return seen.get("proto"), seen.get("line")
+
+
 def snapshot_globals():
     return (HandlerMultiplexer.handlers, HandlerMultiplexer.rootpath, hbase.rootpath,
             gopherentry.mapping, gopherentry.eaexts, hUMN.extstrip, dict(os.environ))
